@@ -118,6 +118,12 @@ def rule_tables(ctx):
             st = o.state
             rs = shape(o.ret)
             emits = [e for e in st.events if e[0] == "emit"]
+            lo_of = {}
+            for i_, e in enumerate(st.events):
+                if e[0] == "emit" and i_ + 1 < len(st.events) and st.events[i_ + 1][0] == "emit-lo":
+                    for p_, v_ in zip(e[1], st.events[i_ + 1][1]):
+                        if v_ is not None:
+                            lo_of[id(p_)] = v_
             # group emissions per try_write closure run: consecutive emissions from the same closure body
             groups = []
             for e in emits:
@@ -164,7 +170,7 @@ def rule_tables(ctx):
                             bad4.append("chunk size is not rendered in hexadecimal (%s, flags %s)" % (grp[0][1], sorted(fl)))
                         elif fl & {"alternate", "sign_plus"}:
                             bad4.append("chunk size is rendered with a prefix (flags %s): `0x..` / `+..` is not a chunk size" % sorted(fl))
-                        kinds.append(("chunk" if I.decide_le(st, ("int", 1), size_arg) else "chunk-maybe-empty", grp))
+                        kinds.append(("chunk" if (lo_of.get(id(grp[0])) or 0) >= 1 or I.decide_le(st, ("int", 1), size_arg) else "chunk-maybe-empty", grp))
                         i += 4
                     elif got == pat[:len(got)] and i + len(got) == len(pcs):
                         i = len(pcs)      # rolled-back tail
